@@ -556,9 +556,16 @@ def saves_term(seg, rec, P, dst):
         part = ops[bounds[k]:bounds[k + 1]]
         kind = v.get("kind") or ""
         fault = v.get("fault") or ""
-        if kind not in ("writefile", "update"):
+        if kind not in ("writefile", "update", "migrate"):
             if part:
                 terms.append("SAny %d" % len(part))
+            continue
+        mres = 2 if v.get("err") else (1 if v.get("skipped") else 0)
+        if kind == "migrate" and (v.get("mig_state", 0) != 0 or fault in ("nodir", "nofile")):
+            # nothing to migrate / legacy file not usable / the temporary file cannot be created:
+            # the model predicts no operation at all
+            terms.append("SMigrate %d %d 0 0 0 %d %d" % (v.get("mig_state", 0), P(v["mig_old"]),
+                                                        1 if fault == "nodir" else 0, mres))
             continue
         if fault == "nofile":
             # no temporary file, no probe file: the model predicts no operation at all
@@ -586,6 +593,10 @@ def saves_term(seg, rec, P, dst):
         else:
             ending = 0
         res = 2 if v.get("err") else (1 if v.get("skipped") else 0)
+        if kind == "migrate":
+            terms.append("SMigrate 0 %d %d %d %d %d %d" % (P(v["mig_old"]), fd, tmp, 2 if fault == "limit" else 0,
+                                                           FAULT_CODE.get(fault, 0), mres))
+            continue
         terms.append("SSave %s %d %d %d %d %d" % (gb(kind == "update"), fd, tmp, ending, FAULT_CODE.get(fault, 0), res))
         if kind == "update" and fault in ("fsync", "rename") and tmp:
             # finalizeUpdate returns the error of CloseReplace without a Cleanup
@@ -615,6 +626,10 @@ def build_case(seg, rec, root, want_dir=None):
         elif op[0] in ("U", "TP"):
             used.add(op[1])
     used.add(dst)
+    # round 6 (K): a scenario with migrateDB calls is judged on two paths
+    mig_old = next((v.get("mig_old") for v in versions[1:] if v.get("kind") == "migrate"), None)
+    if mig_old:
+        used.add(mig_old)
     boot_paths = sorted(p for p in initial if p in used and initial[p].get("exists"))
     all_small = all(v["len"] <= SMALL and v.get("want_len", 0) <= SMALL for v in versions) and all(initial[p]["len"] <= SMALL for p in boot_paths)
     writes_visible = all((op[3] if op[0] == "W" else op[4]) is not None for op in ops if op[0] in ("W", "PW"))
@@ -718,8 +733,9 @@ def build_case(seg, rec, root, want_dir=None):
     saves, left = saves_term(seg, rec, P, dst)
     keep += [str(n) for n in left]
     rec["_tmp_left_behind"] = len(left)
-    coq = "(CTrace 1 %s %s %s %s %s %s %s %s)%%N" % (
-        glist(keep), glist(ents), trace_term, gb(bm), gb(not rec.get("unordered")), glist(lens), glist(vers),
+    head = "CMigTrace %d" % P(mig_old) if mig_old else "CTrace"
+    coq = "(%s 1 %s %s %s %s %s %s %s %s)%%N" % (
+        head, glist(keep), glist(ents), trace_term, gb(bm), gb(not rec.get("unordered")), glist(lens), glist(vers),
         glist(saves))
     return coq, bm, pid
 
@@ -864,13 +880,18 @@ def main():
         nsaves = len(rec["versions"]) - 1
         rel = {p: n for p, n in pid.items()}
         desc = {"pkg": a.pkg, "case": rec["name"], "trace_file": os.path.basename(a.trace), "injected": a.inject,
-                "save_labels": [v.get("label") for v in rec["versions"][1:]], "dst": os.path.relpath(rec["dst"], a.root), "saves": nsaves,
+                "save_labels": [v.get("label") for v in rec["versions"][1:]],
+ "dst": os.path.relpath(rec["dst"], a.root), "saves": nsaves,
                 "sizes": [v["len"] for v in rec["versions"]], "ops": len(seg.ops), "mode": "bytes" if bm else "chunks",
                 "tmpdir": os.path.relpath(rec.get("tmpdir") or a.root, a.root),
                 "paths": {os.path.relpath(p, a.root): n for p, n in rel.items()},
                 "reader_polls": rec.get("reader_polls"), "info": rec.get("info"),
                 "trace_lines_from": seg.first_line, "max_open_writers": mow,
                 "threads": len(seg.tids)}
+        if any(v.get("kind") == "migrate" for v in rec["versions"][1:]):
+            desc["legacy_path"] = os.path.relpath(next(v["mig_old"] for v in rec["versions"][1:] if v.get("mig_old")), a.root)
+            desc["save_faults"] = [v.get("fault") or "none" for v in rec["versions"][1:]]
+            desc["save_errors"] = [v.get("err") or "" for v in rec["versions"][1:]]
         ok = not msgs
         c = {"id": cid, "coq": coq, "key": hashlib.sha256(coq.encode()).hexdigest()[:16],
              "nontrivial": any(op[0] in ("R", "U", "W") for op in seg.ops), "classes": cls,
